@@ -28,12 +28,12 @@ WANT_LINES = True
 
 def shards(tier, seed):
     groups = common.split(common.ALL_INDEXES, 16)
-    reps = 1 if tier == 'quick' else 4
+    reps = 1 if tier == 'quick' else 8
     out = []
     for gi, g in enumerate(groups):
         for r in range(reps):
             out.append({'name': 'g%d.r%d' % (gi, r), 'indexes': g, 'rep': r,
-                        'n_random': 120 if tier == 'quick' else 1500})
+                        'n_random': 120 if tier == 'quick' else 5000})
     return common.with_configs(out, [common.W_ERROR, common.LOG_DEBUG],
                                take=2 if tier == 'quick' else 16)
 
